@@ -201,7 +201,7 @@ pub fn run(ctx: &Ctx) -> i32 {
         Acc::merge,
         acc_zero,
     );
-    let want = ctx.tier.pick(56u64, 120u64);
+    let want = ctx.tier.pick(120u64, 200u64);
     let step = (n / want).max(1);
     let idx: Vec<usize> = (0..n as usize).step_by(step as usize).collect();
     let m = idx.len() as u64;
